@@ -147,7 +147,8 @@ fn jar_classes(j: &PJ) -> Vec<ClassFile> {
 
 // ------------------------------------------------------------------------------------------------ helpers around the real code
 
-/// does following enclosing classes from some nest never leave the table? (the Rust recursions would not terminate)
+/// the harness's own notion of a cyclic table (used by the oracles, never to guard a call of the real code): following
+/// enclosing classes from some nest never leaves the table
 fn cyclic<X>(ns: &Nests<X>) -> bool {
 	let len = ns.all.len();
 	ns.all.values().any(|n| {
@@ -159,23 +160,20 @@ fn cyclic<X>(ns: &Nests<X>) -> bool {
 	})
 }
 
-enum Applied { Ok(MM), Err, Panic, Diverge }
+enum Applied { Ok(MM), Err, Panic }
 
 fn safe_apply(m: MM, ns: &NA) -> Applied {
-	let Ok(mapped) = dukenest::remap_nests(ns, &m) else { return Applied::Err };
-	if cyclic(ns) || cyclic(&mapped) { return Applied::Diverge; }
 	match catch_unwind(AssertUnwindSafe(|| dukenest::apply_nests_to_mappings(m, ns))) {
 		Ok(Ok(r)) => Applied::Ok(r), Ok(Err(_)) => Applied::Err, Err(_) => Applied::Panic,
 	}
 }
 fn safe_undo(m: MM, ns: &NA) -> Applied {
-	if cyclic(ns) { return Applied::Diverge; }
 	match catch_unwind(AssertUnwindSafe(|| dukenest::undo_nests_to_mappings(m, ns))) {
 		Ok(Ok(r)) => Applied::Ok(r), Ok(Err(_)) => Applied::Err, Err(_) => Applied::Panic,
 	}
 }
 fn applied_ans(a: Applied) -> Ans {
-	match a { Applied::Ok(m) => Ans::Ok(to_sexp(&m)), Applied::Err => Ans::err(), Applied::Panic => Ans::Err("panic".into()), Applied::Diverge => Ans::Err("diverge".into()) }
+	match a { Applied::Ok(m) => Ans::Ok(to_sexp(&m)), Applied::Err => Ans::err(), Applied::Panic => Ans::Err("panic".into()) }
 }
 
 fn js(s: &str) -> JavaString { JavaString::from(s.to_owned()) }
@@ -250,6 +248,11 @@ fn jar_names_via(jar: &PJ, ns: &NA, names: &[JavaString]) -> Option<Vec<JavaStri
 }
 
 fn clone_nests(ns: &NA) -> NA { NA { phantom: std::marker::PhantomData, all: ns.all.clone() } }
+fn table_of(nests: &[&Nest]) -> NA {
+	let mut t = NA::default();
+	for n in nests { t.all.insert(n.class_name.clone(), (*n).clone()); }
+	t
+}
 
 /// which nests were applied, observed on `nest_jar(remap = false)`: the class gained an InnerClasses entry naming itself
 fn all_kept_observed(jar: &PJ, ns: &NA) -> bool {
@@ -427,12 +430,10 @@ fn exec(op: &str, args: &[Sexp]) -> Ans {
 		}
 		("nest-jar", [r, ns, jar]) => {
 			let r = tr!(r.as_bool()); let ns = tr!(nests_from(ns)); let jar = tr!(jar_from(jar));
-			if cyclic(&ns) { return Ans::Skip("cyclic".into()); }
 			match dukenest::nest_jar(r, &jar, ns) { Ok(out) => Ans::Ok(tr!(jar_to(&out))), Err(_) => Ans::err() }
 		}
 		("nest-name-jar", [ns, jar, c]) => {
 			let ns = tr!(nests_from(ns)); let jar = tr!(jar_from(jar)); let c = tr!(c.as_jstring());
-			if cyclic(&ns) { return Ans::Skip("cyclic".into()); }
 			if jar_classes(&jar).is_empty() {
 				return match dukenest::nest_jar(true, &jar, ns) { Ok(_) => Ans::fail("no_classes_accepted"), Err(_) => Ans::err() };
 			}
@@ -440,10 +441,11 @@ fn exec(op: &str, args: &[Sexp]) -> Ans {
 		}
 		("nest-name-map", [ns, c]) => {
 			let ns = tr!(nests_from(ns)); let c = tr!(c.as_jstring());
-			if cyclic(&ns) { return Ans::Err("diverge".into()); }
+			// building the remapper is all `undo` does with an empty mapping set: an error here is the cyclic-table error
+			if dukenest::undo_nests_to_mappings(empty_mappings(), &ns).is_err() { return Ans::err(); }
 			match map_names_via(empty_mappings(), &ns, &[c]) { Ok((v, _)) => Ans::Ok(Sexp::jstr(&v[0])), Err(_) => Ans::Skip("unobservable".into()) }
 		}
-		// NOT generated: runs the real recursion without the `cyclic` guard (a cyclic table overflows the stack and kills the process)
+		// kept for the replay of the fixed finding 0532d54 (a cyclic table used to overflow the stack here)
 		("nest-name-map-unguarded", [ns, c]) => {
 			let ns = tr!(nests_from(ns)); let c = tr!(c.as_jstring());
 			let mut m = empty_mappings();
@@ -478,7 +480,7 @@ fn exec(op: &str, args: &[Sexp]) -> Ans {
 		}
 		("oracle-undo-apply", [m, ns]) => {
 			let ns = tr!(nests_from(ns)); let m: MM = tr!(from_sexp(m));
-			if cyclic(&ns) || !wf_mappings(&m) { return Ans::out_of_domain(); }
+			if !wf_mappings(&m) { return Ans::out_of_domain(); }
 			let used = used_names(&m);
 			if !used.iter().all(|n| clean(n)) { return Ans::out_of_domain(); }
 			let keys: Vec<JavaString> = ns.all.keys().map(|k| k.as_inner().to_owned()).collect();
@@ -500,9 +502,13 @@ fn exec(op: &str, args: &[Sexp]) -> Ans {
 		("oracle-nest-jar-spec", [ns, jar]) => {
 			let ns = tr!(nests_from(ns)); let jar = tr!(jar_from(jar));
 			let classes = jar_classes(&jar);
-			if cyclic(&ns) || classes.is_empty() { return Ans::out_of_domain(); }
+			if classes.is_empty() { return Ans::out_of_domain(); }
 			let version = classes.iter().map(|c| c.version).min().expect("classes");
 			let (kept, created) = spec_filter(&classes, &ns);
+			if cyclic(&table_of(&kept)) {
+				// the applied nests form a cycle: an error is the specified answer
+				return if dukenest::nest_jar(false, &jar, clone_nests(&ns)).is_err() { Ans::pass() } else { Ans::fail("cyclic_table_accepted") };
+			}
 			let Ok(out) = dukenest::nest_jar(false, &jar, clone_nests(&ns)) else { return Ans::fail("nest_jar_err") };
 			// every source entry under its name: classes with the attributes, the rest untouched
 			for (k, e) in &jar.entries {
@@ -535,10 +541,12 @@ fn exec(op: &str, args: &[Sexp]) -> Ans {
 		("oracle-remap-names", [ns, jar]) => {
 			let ns = tr!(nests_from(ns)); let jar = tr!(jar_from(jar));
 			let classes = jar_classes(&jar);
-			if cyclic(&ns) || classes.is_empty() { return Ans::out_of_domain(); }
+			if classes.is_empty() { return Ans::out_of_domain(); }
 			let (kept, created) = spec_filter(&classes, &ns);
-			let mut kept_table = NA::default();
-			for n in &kept { kept_table.all.insert(n.class_name.clone(), (*n).clone()); }
+			let kept_table = table_of(&kept);
+			if cyclic(&kept_table) {
+				return if dukenest::nest_jar(true, &jar, clone_nests(&ns)).is_err() { Ans::pass() } else { Ans::fail("cyclic_table_accepted") };
+			}
 			// expected (entry name, class name) in order: synthesised classes first, then the source entries
 			let mut want: Vec<(JavaString, Option<JavaString>)> = Vec::new();
 			for name in &created {
@@ -566,6 +574,14 @@ fn exec(op: &str, args: &[Sexp]) -> Ans {
 				if gc != wc { return Ans::fail("class_name") }
 			}
 			Ans::pass()
+		}
+		("oracle-cyclic-err", [ns]) => {
+			let ns = tr!(nests_from(ns));
+			let apply_err = !matches!(safe_apply(empty_mappings(), &ns), Applied::Ok(_));
+			let undo_err = !matches!(safe_undo(empty_mappings(), &ns), Applied::Ok(_));
+			if cyclic(&ns) {
+				if apply_err && undo_err { Ans::pass() } else { Ans::fail("cyclic_table_accepted") }
+			} else if undo_err { Ans::fail("acyclic_table_rejected") } else { Ans::pass() }
 		}
 		("oracle-read-spec", [t]) => {
 			let text = tr!(t.as_string());
@@ -797,7 +813,7 @@ fn gen_scene(r: &mut Rng, cfg: &SceneCfg, out: &mut Out) -> Scene {
 	if cfg.weird && r.chance(1, 10) { jar.insert(r.below(jar.len() + 1), GEntry::Other("p/A$In.class".into())); }
 	// table order matters for the side effects of the filter
 	match r.below(3) { 0 => {}, 1 => nests.reverse(), _ => r.shuffle(&mut nests) }
-	if cfg.weird && r.chance(1, 30) && nests.len() >= 2 {
+	if cfg.weird && r.chance(1, 12) && nests.len() >= 2 {
 		let a = nests[0].class.clone(); let b = nests[1].class.clone();
 		nests[0].encl = b; nests[1].encl = a;
 		out.stats.hit("nest:cycle");
@@ -898,10 +914,6 @@ fn gen_text(r: &mut Rng, out: &mut Out) -> String {
 }
 
 fn gen(r: &mut Rng, tier: Tier, out: &mut Out) {
-	// `Rng::new(seed + 1)` is `Rng::new(seed)` advanced by one draw (the seed is multiplied by the stream increment), so
-	// neighbouring seeds would replay almost the same cases; continue from a hashed state instead
-	let mut forked = r.fork();
-	let r = &mut forked;
 	let rounds = if tier == Tier::Thorough { 20000 } else { 1000 };
 	for i in 0..rounds {
 		// 1. jar side on arbitrary scenes
@@ -917,6 +929,8 @@ fn gen(r: &mut Rng, tier: Tier, out: &mut Out) {
 		}
 		out.op("oracle-names-agree", &[ns.clone(), jar.clone()]);
 		out.op("oracle-nest-jar-spec", &[ns.clone(), jar.clone()]);
+		out.op("oracle-remap-names", &[ns.clone(), jar.clone()]);
+		out.op("oracle-cyclic-err", &[ns.clone()]);
 		// 2. scenes in which every nest applies: the domain of names_agree
 		let cfg2 = SceneCfg { max_tops: r.range(1, 3), max_nests: r.range(1, 6), weird: false, all_apply: true, underscores: false };
 		let sc2 = gen_scene(r, &cfg2, out);
@@ -924,7 +938,6 @@ fn gen(r: &mut Rng, tier: Tier, out: &mut Out) {
 		out.op("oracle-names-agree", &[ns2.clone(), jar_sexp(&sc2.jar)]);
 		if i % 3 == 0 { out.op("nest-jar", &[Sexp::bool(true), ns2.clone(), jar_sexp(&sc2.jar)]); }
 		if i % 3 == 1 { out.op("oracle-nest-jar-spec", &[ns2.clone(), jar_sexp(&sc2.jar)]); }
-		// names with renaming; only where no enclosing class has to be synthesised (known defect otherwise)
 		out.op("oracle-remap-names", &[ns2.clone(), jar_sexp(&sc2.jar)]);
 		// 3. mappings side
 		let cfg3 = SceneCfg { max_tops: r.range(1, 3), max_nests: r.range(0, 5), weird: r.chance(1, 4), all_apply: false, underscores: r.chance(1, 5) };
@@ -937,6 +950,7 @@ fn gen(r: &mut Rng, tier: Tier, out: &mut Out) {
 		out.op("oracle-undo-apply", &[m3.clone(), ns3.clone()]);
 		out.op("oracle-apply-spec", &[m3.clone(), ns3.clone()]);
 		out.op("oracle-map-nests-spec", &[ns3.clone(), m3.clone()]);
+		out.op("oracle-cyclic-err", &[ns3.clone()]);
 		// undo on a set whose keys are already nested names (built with the generator's own translation), and on raw sets
 		let fuel = sc3.nests.len() + 1;
 		let mut nested = Scene { nests: sc3.nests.clone(), jar: vec![], tops: sc3.tops.clone(),
@@ -964,6 +978,7 @@ fn gen(r: &mut Rng, tier: Tier, out: &mut Out) {
 				if encl_in { let mut c = GClass::new("p/Out", 8); if method_there { c.methods.push(m.clone()); } else { c.methods.push(("m".into(), "()V".into())); } jar.insert(0, GEntry::Class("p/Out.class".into(), c)); }
 				out.stats.hit("exhaustive:filter-one-nest");
 				out.op("nest-jar", &[Sexp::bool(bits & 1 == 0), nests_sexp(&[nest.clone()]), jar_sexp(&jar)]);
+				out.op("oracle-remap-names", &[nests_sexp(&[nest.clone()]), jar_sexp(&jar)]);
 				out.op("oracle-nest-jar-spec", &[nests_sexp(&[nest]), jar_sexp(&jar)]);
 			}
 		}
@@ -985,6 +1000,7 @@ fn gen(r: &mut Rng, tier: Tier, out: &mut Out) {
 					out.op("nest-jar", &[Sexp::bool(order == 0), nests_sexp(&ns), jar_sexp(&jar)]);
 					out.op("oracle-nest-jar-spec", &[nests_sexp(&ns), jar_sexp(&jar)]);
 					out.op("oracle-names-agree", &[nests_sexp(&ns), jar_sexp(&jar)]);
+					out.op("oracle-remap-names", &[nests_sexp(&ns), jar_sexp(&jar)]);
 				}
 			}
 		}
@@ -1013,6 +1029,8 @@ fn gen(r: &mut Rng, tier: Tier, out: &mut Out) {
 				out.op("oracle-undo-apply", &[m.clone(), nss.clone()]);
 				out.op("nest-name-map", &[nss.clone(), Sexp::str(c1)]);
 				out.op("map-nests", &[nss.clone(), m.clone()]);
+				out.op("undo-nests", &[m.clone(), nss.clone()]);
+				out.op("oracle-cyclic-err", &[nss.clone()]);
 			}
 		} } } }
 	}
